@@ -153,6 +153,7 @@ func (s *Extractor) asyncWorker(wg *sync.WaitGroup, inputBatch <-chan InputBatch
 			}
 		}
 		if len(matchBatch) > 0 {
+			verifTrace("w.count", "", atomic.LoadUint64(&s.matchedLines), atomic.LoadUint64(&s.readLines))
 			verifTrace("w.send", matchBatch[0].Source, matchBatch[0].LineNumber, uint64(len(matchBatch)))
 			s.readChan <- matchBatch
 			verifTrace("w.sent", "", 0, 0)
